@@ -293,3 +293,97 @@ example : KM.Gen.GoLoginDest.getLoginDestination "/idp/oauth2/authorize?x=1".toL
     KM.Gen.GoLoginDest.getLoginDestination "//evil.example".toList = "/profile/".toList := by decide
 
 end KM.LoginDest
+
+/-! ### the federated login as a history (begin / begin again / callback, in any order)
+
+Round 5: the parked destination is client-chosen state that lives across requests; the property
+must hold for every *history* of requests on the two handlers, not only for begin → callback. -/
+namespace KM.LoginDest
+
+/-- invariant: every parked destination passes the filter's test -/
+def PendSafe (s : Flow) : Prop := ∀ p ∈ s.pend, safeDest p.dest = true
+
+theorem findPending_mem {c : Nat} {ps : List Pending} {p : Pending}
+    (h : findPending c ps = some p) : p ∈ ps := by
+  induction ps with
+  | nil => simp [findPending] at h
+  | cons q qs ih =>
+    unfold findPending at h
+    split at h
+    · cases h; exact List.mem_cons_self
+    · exact List.mem_cons_of_mem _ (ih h)
+
+theorem callbackDest_safe {d : List Char} (h : safeDest d = true) :
+    safeDest (callbackDest d) = true := by
+  unfold callbackDest
+  split
+  · exact c17_profile_safe
+  · exact h
+
+theorem fstep_inv (o : List Char → Bool) (s : Flow) (x : FStep) (h : PendSafe s) :
+    PendSafe (fstep o s x).1 := by
+  cases x with
+  | begin d =>
+    intro p hp
+    simp only [fstep, List.mem_cons] at hp
+    rcases hp with rfl | hp
+    · rcases c17_filter d with e | e
+      · show safeDest (filter d) = true
+        rw [e]; exact c17_profile_safe
+      · exact e
+    · exact h p hp
+  | callback st c =>
+    cases hf : findPending c s.pend with
+    | none => simp only [fstep, hf]; exact h
+    | some q =>
+      by_cases hs : q.st = st
+      · simp only [fstep, hf, hs, ne_eq, not_true_eq_false, if_false]
+        intro p hp
+        exact h p (List.mem_filter.mp hp).1
+      · simp only [fstep, hf, hs, ne_eq, not_false_eq_true, if_true]; exact h
+
+theorem fstep_emit (o : List Char → Bool) (s : Flow) (x : FStep) (l : List Char) (h : PendSafe s)
+    (he : (fstep o s x).2 = some l) : browserStart l = .pathAbsolute := by
+  cases x with
+  | begin d => simp only [fstep] at he; cases he
+  | callback st c =>
+    cases hf : findPending c s.pend with
+    | none => simp only [fstep, hf] at he; cases he
+    | some q =>
+      by_cases hs : q.st = st
+      · simp only [fstep, hf, hs, ne_eq, not_true_eq_false, if_false, Option.some.injEq] at he
+        rw [← he]
+        apply c17_same_origin
+        apply c17_location_safe
+        exact callbackDest_safe (h q (findPending_mem hf))
+      · simp only [fstep, hf, hs, ne_eq, not_false_eq_true, if_true] at he; cases he
+
+/-- **Flow**: in every history of begin and callback requests — any number of attempts, begun with
+any destinations and any cookies presented, completed in any order, with matching or mismatching
+state/cookie pairs — and for every answer of `url.Parse`, each `Location` the callback emits
+resolves on keymaster's own origin. -/
+theorem c17_flow_history (o : List Char → Bool) (hist : List FStep) (l : List Char)
+    (hl : some l ∈ frun o Flow.init hist) : browserStart l = .pathAbsolute := by
+  have gen : ∀ (hist : List FStep) (s : Flow), PendSafe s → some l ∈ frun o s hist →
+      browserStart l = .pathAbsolute := by
+    intro hist
+    induction hist with
+    | nil => intro s _ hm; simp [frun] at hm
+    | cons x xs ih =>
+      intro s hs hm
+      simp only [frun, List.mem_cons] at hm
+      rcases hm with hm | hm
+      · exact fstep_emit o s x l hs hm.symm
+      · exact ih _ (fstep_inv o s x hs) hm
+  exact gen hist Flow.init (by intro p hp; cases hp) hl
+
+/-- a restarted attempt does not touch the one parked before: the first attempt's callback still
+goes where its own begin said (non-vacuity of `c17_flow_history`, and the restart scenario) -/
+theorem c17_flow_restart_example :
+    frun (fun _ => true) Flow.init
+      [.begin "/idp/x".toList, .begin "//evil.example".toList, .callback 1 0, .callback 1 1,
+       .callback 0 0, .callback 0 0] =
+    [none, none, none, some "/profile/".toList, some "/idp/x".toList, none] := by
+  decide
+
+end KM.LoginDest
